@@ -141,6 +141,20 @@ ConfHooks(Hh, B, e) ==
   ELSE (IF Hh.nupd # Cardinality(DOMAIN B.veh) THEN {<<"Hooks", "update_events", "missing_or_extra", "step">>} ELSE {})
        \cup (IF Hh.ninstr # Len(Hh.final) THEN {<<"Hooks", "instruction_events", "missing_or_extra", "step">>} ELSE {})
 
+\* perform_vehicle_state_updates: non-queueing vehicles by id, then queueing vehicles by (enqueue time, id), the order
+\* being fixed from the state at the start of the update phase
+ConfOrder(Hh, B, e) ==
+  IF e.ev # "update" THEN {}
+  ELSE LET U == IF Hh.nupd = 0 THEN B.veh ELSE Hh.ustate
+           left == DOMAIN U \ Hh.udone
+           q(v) == U[v].act = "ChargeQueueing"
+           Earlier(a, b) == IF q(a) # q(b) THEN q(b)
+                            ELSE IF q(a) /\ U[a].enq # U[b].enq THEN U[a].enq < U[b].enq
+                            ELSE Hh.vrank[a] < Hh.vrank[b]
+       IN IF e.v \in left /\ \E w \in left \ {e.v} : Earlier(w, e.v)
+          THEN {<<"UpdateOrder", "order", IF q(e.v) THEN "queueing_vehicle_updated_too_early" ELSE "vehicle_updated_too_early", e.v>>}
+          ELSE {}
+
 Conformance(B, T, e) ==
   CASE e.ev = "instr" -> ConfInstr(B, T, e)
     [] e.ev = "update" -> ConfUpdate(B, T, e)
@@ -185,6 +199,8 @@ HInit(T, e) ==
    reqfile  |-> IF "reqfile" \in DOMAIN e THEN PairsToFn(e.reqfile) ELSE <<>>,      \* request id -> departure time
    pricefile|-> IF "pricefile" \in DOMAIN e
                 THEN [i \in DOMAIN e.pricefile |-> [e.pricefile[i] EXCEPT !.sts = SeqToSet(@)]] ELSE <<>>,
+   ustate   |-> <<>>,          \* the vehicles as they were when this step's update phase began, and those updated so far
+   udone    |-> {},
    nupd     |-> 0,             \* vehicle updates / instruction attempts recorded in this step (hook presence)
    ninstr   |-> 0,
    steps    |-> 0]
@@ -226,6 +242,8 @@ HNext(Hh, B, T, e) ==
                 /\ (pk # {} \/ B.veh[e.v].gained # T.veh[e.v].gained \/ B.veh[e.v].bal # T.veh[e.v].bal)
              THEN @ + 1 ELSE @,
      !.gens = IF e.ev = "begin" THEN <<>> ELSE IF e.ev = "gen" THEN Append(@, [name |-> e.name, instrs |-> e.instrs]) ELSE @,
+     !.ustate = IF e.ev = "begin" THEN <<>> ELSE IF e.ev = "update" /\ Hh.nupd = 0 THEN B.veh ELSE @,
+     !.udone = IF e.ev = "begin" THEN {} ELSE IF e.ev = "update" THEN @ \cup {e.v} ELSE @,
      !.nupd = IF e.ev = "begin" THEN 0 ELSE IF e.ev = "update" THEN @ + 1 ELSE @,
      !.ninstr = IF e.ev = "begin" THEN 0 ELSE IF e.ev = "instr" THEN @ + 1 ELSE @,
      !.steps = IF e.ev = "end" THEN @ + 1 ELSE @]
@@ -431,7 +449,7 @@ TraceNext ==
      IN /\ S' = T
         /\ H' = IF e.ev = "init" THEN HInit(T, e) ELSE HNext(H, B, T, e)
         /\ IF e.ev = "init" THEN Record({}, {}, {}, l)
-           ELSE Record(MonStep(H, B, T, e), Conformance(B, T, e) \cup ConfHooks(H, B, e), Coverage(B, T, e), l)
+           ELSE Record(MonStep(H, B, T, e), Conformance(B, T, e) \cup ConfHooks(H, B, e) \cup ConfOrder(H, B, e), Coverage(B, T, e), l)
   /\ l' = l + 1
 
 TraceSpec == TraceInit /\ [][TraceNext]_tvars
